@@ -330,7 +330,8 @@ fn execute(scn: &BScn, property: &str) -> RunOutcome {
     // set_timeline without reset while Ended: the animator keeps reporting Ended for a timeline it
     // never played; excluded from the Ended clauses until the next reset / re-target
     let mut stale_ended = false;
-    let chain_next = |k: Key| -> Option<Key> {
+    let mut chain_present = true;
+    let chain_lookup = |k: Key| -> Option<Key> {
         cfg.chain
             .as_ref()
             .and_then(|pairs| pairs.iter().rev().find(|(f, _)| *f == k).map(|(_, t)| *t))
@@ -370,7 +371,15 @@ fn execute(scn: &BScn, property: &str) -> RunOutcome {
                     BOp::Reset => {
                         e.get_mut::<Animator<Target>>().unwrap().reset();
                     }
-                    BOp::PauseTime(_) | BOp::TimeSpeed(_) => {}
+                    BOp::PauseTime(_) | BOp::TimeSpeed(_) | BOp::SpawnExtra | BOp::DespawnExtra => {}
+                    BOp::RemoveChain => {
+                        e.remove::<AnimationChain<Key>>();
+                    }
+                    BOp::InsertChain => {
+                        if e.get::<AnimationSelector<Key, Target>>().is_some() {
+                            insert_chain(cfg, &mut e);
+                        }
+                    }
                     BOp::InsertSelector => {
                         if e.get::<AnimationSelector<Key, Target>>().is_none() {
                             insert_selector(cfg, &mut e);
@@ -399,7 +408,31 @@ fn execute(scn: &BScn, property: &str) -> RunOutcome {
                 out.count("op.app_clock_pause_or_speed");
             }
             match op {
-                BOp::PauseTime(_) | BOp::TimeSpeed(_) => {}
+                BOp::SpawnExtra => {
+                    if w.extra.is_none() {
+                        w.extra = spawn_extra_entity(cfg, &mut w.app);
+                        out.count("op.extra_entity_spawned_late");
+                    }
+                }
+                BOp::DespawnExtra => {
+                    if let Some(x) = w.extra.take() {
+                        w.app.world.despawn(x);
+                        out.count("op.extra_entity_despawned");
+                    }
+                }
+                BOp::RemoveChain => {
+                    chain_present = false;
+                    pending = None;
+                    out.count("op.chain_removed");
+                }
+                BOp::InsertChain => {
+                    chain_present = true;
+                    out.count("op.chain_inserted");
+                }
+                _ => {}
+            }
+            match op {
+                BOp::PauseTime(_) | BOp::TimeSpeed(_) | BOp::SpawnExtra | BOp::DespawnExtra | BOp::RemoveChain | BOp::InsertChain => {}
                 BOp::InsertSelector => out.count("op.selector_inserted_later"),
                 BOp::SetKey(k) => {
                     user_set_key = true;
@@ -818,7 +851,8 @@ fn execute(scn: &BScn, property: &str) -> RunOutcome {
             //    began, the governed animator was Ended having played exactly the key that was
             //    active (acted-on key == selector key), and the chain maps that key to the new one
             if key_after != key_before {
-                let justified = chain_next(key_before) == Some(key_after)
+                let justified = chain_present
+                    && chain_lookup(key_before) == Some(key_after)
                     && before.acted == Some(key_before)
                     && before.state == AnimationState::Ended;
                 if justified {
@@ -851,7 +885,7 @@ fn execute(scn: &BScn, property: &str) -> RunOutcome {
             if target_ended_now {
                 user_changed_since_end = false;
                 if after.acted == Some(key_after) {
-                    if let Some(to) = chain_next(key_after) {
+                    if let Some(to) = chain_lookup(key_after).filter(|_| chain_present) {
                         pending = Some(Pending {
                             from: key_after,
                             to,
